@@ -472,10 +472,73 @@ def write_if_changed(path, text):
     return True
 
 
+def elaboration_errors(text):
+    """lines of `text` (as Generated/Funcs.lean) on which Lean reports an error; None if Lean cannot be asked"""
+    import re
+    import shutil
+    import subprocess
+    import tempfile
+    if shutil.which("lake") is None:
+        return None
+    lean_dir = os.path.join(HERE, "lean")
+    d = tempfile.mkdtemp(prefix="py2lean-", dir=os.path.join(lean_dir, ".lake") if os.path.isdir(os.path.join(lean_dir, ".lake")) else None)
+    try:
+        f = os.path.join(d, "FuncsCheck.lean")
+        with open(f, "w", encoding="utf-8") as fh:
+            fh.write(text)
+        try:
+            p = subprocess.run(["lake", "env", "lean", f], cwd=lean_dir, stdout=subprocess.PIPE, stderr=subprocess.STDOUT, timeout=300)
+        except (OSError, subprocess.TimeoutExpired):
+            return None
+        out = p.stdout.decode(errors="replace")
+        if "does not exist" in out and "object file" in out:
+            return None                  # the run-time library is not built yet (first setup): lake build will tell
+        errs = []
+        for m in re.finditer(r"FuncsCheck\.lean:(\d+):(\d+): error[^:]*: ([^\n]*)", out):
+            errs.append((int(m.group(1)), m.group(3)))
+        return errs
+    finally:
+        shutil.rmtree(d, ignore_errors=True)
+
+
+def emit_checked(reg):
+    """emit; a definition Lean rejects (an edit of the source that makes the translation ill-typed) becomes an
+    opaque marker too, so that the model and the driver always build and only the owning theorems break"""
+    text = emit(reg)
+    if os.path.exists(OUT) and open(OUT, encoding="utf-8").read() == text:
+        return text                      # unchanged since it was last checked and built
+    for _ in range(6):
+        errs = elaboration_errors(text)
+        if not errs:
+            break
+        lines = text.split("\n")
+        starts = {}
+        for fn in reg.order:
+            if fn.unsupported is None:
+                key = "def {} ".format(fn.lean)
+                alt = "def {} :".format(fn.lean)
+                for i, l in enumerate(lines):
+                    if l.startswith(key) or l.startswith(alt):
+                        starts[i + 1] = fn
+        hit = False
+        for ln, msg in errs:
+            owner = None
+            for st in sorted(starts):
+                if st <= ln:
+                    owner = starts[st]
+            if owner is not None and owner.unsupported is None:
+                owner.unsupported = "the translation does not elaborate: " + msg[:160]
+                hit = True
+        if not hit:
+            break
+        text = emit(reg)
+    return text
+
+
 def main():
     import py2lean_specs as specs
     reg = run_specs(specs)
-    text = emit(reg)
+    text = emit_checked(reg)
     write_if_changed(OUT, text)
     import py2lean_driver
     if "--show" in sys.argv:
